@@ -1381,11 +1381,18 @@ func (m *Machine) callBuiltin(caller *frame, fn *ssa.Builtin, args []value) valu
 		return n
 
 	case "close":
+		m.schedPoint("close")
+		if ch := args[0].(*vchan); ch != nil {
+			m.raceRelease(ch)
+		}
 		m.chanClose(args[0].(*vchan))
 		return nil
 
 	case "delete":
 		mm := args[0].(*omap)
+		if mm != nil && m.race != nil {
+			m.raceWrite(mm, caller, nil)
+		}
 		if mm != nil {
 			m.omapDelete(mm, args[1])
 		}
